@@ -273,16 +273,26 @@ func (s *Store) startOrReuseFile() (fref *FileRef, file File, err error) {
 // this footer or, when the footer itself has no segments (only child
 // collections were ever written), those of one of its child footers.
 func (f *Footer) fileRef() *FileRef {
+	if mref := f.mmapRef(); mref != nil {
+		return mref.fref
+	}
+
+	return nil
+}
+
+// mmapRef returns the first loaded mmapRef (with a FileRef) found
+// among the segments of this footer or of its child footers.
+func (f *Footer) mmapRef() *mmapRef {
 	for i := range f.SegmentLocs {
 		mref := f.SegmentLocs[i].mref
 		if mref != nil && mref.fref != nil {
-			return mref.fref
+			return mref
 		}
 	}
 
 	for _, childFooter := range f.ChildFooters {
-		if fref := childFooter.fileRef(); fref != nil {
-			return fref
+		if mref := childFooter.mmapRef(); mref != nil {
+			return mref
 		}
 	}
 
